@@ -446,7 +446,136 @@ def check_c07(tier, seed):
         on_result=snap_oracle)
 
 
-CHECKS = {"C01": check_c01, "C03": check_c03, "C05": check_c05, "C06": check_c06, "C07": check_c07, "C08": check_c08}
+# ----------------------------------------------------------------------------------------------
+# C12: damage to one header page
+# ----------------------------------------------------------------------------------------------
+def fnv64(b):
+    h = 0xcbf29ce484222325
+    for x in b:
+        h = ((h ^ x) * 0x100000001b3) & 0xFFFFFFFFFFFFFFFF
+    return "%016x" % h
+
+
+def c12_history(rng, ncommits):
+    h = gen.H()
+    dumps_at = []
+    for i in range(ncommits):
+        t = h.begin(True)
+        b = h.bucket("goc", t, 0, gen.hx("b%d" % (i % 2)))
+        for _ in range(rng.randrange(1, 12)):
+            h.emit("put %d %d %s %s" % (t, b, gen.lk(rng.randrange(30), rng.choice([8, 100])), gen.rval(rng, [0, 16, 300, 1500])))
+        if i % 3 == 2:
+            h.emit("delb %d 0 %s" % (t, gen.hx("b%d" % ((i + 1) % 2))))
+        h.commit(t)
+    return h.text()
+
+
+def check_c12(tier, seed):
+    rep = Report("C12", tier, seed, "proof")
+    b = vlib.build(release=False)
+    gate = vlib.proof_gate("C12", b)
+    rd = RunDir()
+    rng = random.Random(seed)
+    P = 1024
+    failed = 0
+    images = 0
+    try:
+        if b.cargo_ok and b.extract_ok:
+            counts = [0, 1, 2, 3, 5, 6] if tier == "quick" else list(range(0, 41, 1))
+            vals_quick = lambda o: [(o + 1) & 0xff, o ^ 0x80, 0x00, 0xff]
+            jobs = []
+            for n in counts:
+                d = rd.sub()
+                text = c12_history(rng, n)
+                r = vlib.run_history(text, dict(pagesize=P, num_pages=32), d)
+                snap_oracle("c12", text, r)
+                if first_problem(r):
+                    failed += 1
+                    rep.violation(describe_problem("c12 base history n=%d" % n, first_problem(r)),
+                                  dict(kind="history", property="C12", opts=dict(pagesize=P, num_pages=32), profile="debug", history=text.split("\n")))
+                    continue
+                dbp = os.path.join(d, "t.db")
+                img = open(dbp, "rb").read()
+                dumps = [a for c, a in zip(r["cmds"], r["act"]) if c.startswith("dump")]
+                h_new = fnv64((dumps[-1] if dumps else "dump:").encode())
+                h_prev = fnv64((dumps[-2] if len(dumps) >= 2 else "dump:").encode())
+                rc, out = vlib.sh([vlib.MONITOR, "select", str(P), dbp])
+                newest = 1 if "slot=1" in out else 0
+                muts = []
+                meta = []
+                stride = 1 if (tier == "thorough" or n in (0, 2)) else 3
+                for slot in (0, 1):
+                    for off in list(range(0, 128)) + list(range(128, P, stride)):
+                        o = img[slot * P + off]
+                        for v in vals_quick(o):
+                            if v != o:
+                                muts.append("%d %02x" % (slot * P + off, v))
+                                meta.append((slot, off, "byte"))
+                    muts.append("%d %s" % (slot * P, "00" * P))
+                    meta.append((slot, 0, "zero-page"))
+                    for _ in range(100 if tier == "quick" else 400):
+                        off = rng.randrange(0, 120)
+                        ln = rng.randrange(2, 40)
+                        muts.append("%d %s" % (slot * P + off, bytes(rng.randrange(256) for _ in range(ln)).hex()))
+                        meta.append((slot, off, "multi"))
+                mf = os.path.join(d, "muts.txt")
+                open(mf, "w").write("\n".join(muts) + "\n")
+                jobs.append((n, d, dbp, mf, muts, meta, h_new, h_prev, newest))
+
+            def run_job(j):
+                n, d, dbp, mf, muts, meta, h_new, h_prev, newest = j
+                rc1, lib = vlib.sh([vlib.harness_bin("debug"), "damage", dbp, mf, os.path.join(d, "scratch.db"), "--pagesize", str(P)], timeout=900)
+                rc2, mod = vlib.sh([vlib.MONITOR, "damage", str(P), dbp, mf], timeout=900)
+                return j, lib.split("\n"), mod.split("\n")
+
+            from concurrent.futures import ThreadPoolExecutor
+            with ThreadPoolExecutor(vlib.NPROC) as ex:
+                results = list(ex.map(run_job, jobs))
+            reported = set()
+            for (n, d, dbp, mf, muts, meta, h_new, h_prev, newest), lib, mod in results:
+                for i, mline in enumerate(muts):
+                    images += 1
+                    l = lib[i] if i < len(lib) else "<library process died>"
+                    m = mod[i] if i < len(mod) else "<model died>"
+                    slot, off, kind = meta[i]
+                    bad = None
+                    w = l.split()
+                    if len(w) < 4 or w[1] != "ok" or w[3] != "check:ok":
+                        bad = "open of the damaged image does not succeed cleanly: %s" % l[:160]
+                    elif w[2] not in (h_new, h_prev):
+                        bad = "contents after damage are neither the newest nor the previous commit"
+                    elif slot != newest and w[2] != h_new:
+                        bad = "older header damaged but the newest commit is not shown"
+                    elif l.split()[:3] != m.split()[:3]:
+                        bad = "library and model disagree: library `%s` model `%s`" % (l[:100], m[:100])
+                    if bad:
+                        failed += 1
+                        key = (kind, bad[:40], off if off in (8,) else -1)
+                        if key in reported or len(reported) >= 3:
+                            continue
+                        reported.add(key)
+                        rep.violation("after %d commits, slot %d offset %d (%s): %s" % (n, slot, off, kind, bad),
+                                      dict(kind="header-damage", property="C12", commits=n, slot=slot, offset=off, mutation=mline,
+                                           library=l, model=m, base_history=open(os.path.join(d, "h.txt")).read().split("\n"),
+                                           how="run base_history (pagesize 1024, num_pages 32), overwrite the bytes at absolute offset given by 'mutation' (offset hexbytes), open the file"))
+                rep.count("c12 n=%d" % n, mf, True)
+                rep.distinct.update(hashlib.sha1(("%d %s" % (n, mm)).encode()).hexdigest() for mm in muts[:: max(1, len(muts) // 50)])
+        rep.cov["evaluations"] = images
+        rep.cov["rule"] = ("after each of %s commits: every offset of both header pages x {+1, xor 0x80, 0x00, 0xff} (offsets >= 128 "
+                           "strided in quick), zeroed page, random multi-byte overwrites inside the header record; each image opened by "
+                           "the library (open + full dump + check) and by the model (Gallina open/decoder); non-trivial = every image "
+                           "(a damaged header); distinct by (commit count, mutation)")
+        rep.sample(dict(commits=2, mutation="1032 83", meaning="absolute offset 1032 (slot 1, page-type byte) overwritten with 0x83"))
+        rep.cov["traces_validated_against_impl"] = images
+        fill_proof_cov(rep, gate, TRUSTED_COMMON)
+        gate_or_search(rep, "C12", b, gate, failed > 0)
+        return rep.finish()
+    finally:
+        rd.cleanup()
+
+
+CHECKS = {"C01": check_c01, "C03": check_c03, "C05": check_c05, "C06": check_c06, "C07": check_c07, "C08": check_c08,
+          "C12": check_c12}
 
 
 def main(argv):
